@@ -224,6 +224,9 @@ void Groups::evalArguments( int argc, char* argv[]) noexcept( false)
       for (auto const& stored_group : mArgGroups)
       {
          stored_group.mpArgHandler->checkMissingMandatoryCardinality();
+         // same final checks as in Handler::evalArguments()
+         stored_group.mpArgHandler->mConstraints.checkRequired();
+         stored_group.mpArgHandler->checkGlobalConstraints();
       } // end for
    } // end if
 
